@@ -180,8 +180,69 @@ class Sh(ld.DiffRunner):
             self.res["nontrivial"].add(case_hash(text))
 
 
+FIXED_FUNCS = (
+    'function g(a, b) return integer is begin return a * 10 + b; end;\n'
+    'function inc(n) return integer is begin return n + 1; end;\n'
+    # reads the error record outside any handler, and can fail inside its own handler
+    'function eh(x) return integer is begin print "@@E:" isnull(error@1) " [" error@1 "]"; '
+    'if x then begin raise oops; exception when oops then raise again; end; end if; return 1; end;\n'
+    # locals assigned on one path only, probed with isnull() and then read again
+    'function lz(x) return integer is begin if x then v = 5; w = tab(1, 7); u = "set"; end if; '
+    'if isnull(v) then print "@@L:v unset"; end if; if isnull(w) then print "@@L:w unset"; end if; if isnull(u) then print "@@L:u unset"; end if; '
+    'print "@@L:" v " " u " " isnull(w); return 0; end;\n'
+    # a handled error inside a loop inside the function, then a return from inside the handler
+    'function lp(n) return integer is begin k = 0; for i in 1 to n loop begin k = k + 10 / (3 - i); exception when divide_by_zero then return k; end; end loop; return k + 1000; end;\n'
+    # string/table parameters changed in place
+    'function ap(t, s) return integer is begin t.concat(1); s.concat("!"); print "@@A:" t.count() " " s; return t.count(); end;\n')
+FIXED_CALLS = ["c = g(1, g(2, 3));", "c = inc(inc(inc(0)));", "c = g(inc(1), g(inc(2), inc(3)));", "c = eh(false);", "c = eh(true);", "c = lz(true);", "c = lz(false);",
+               "c = lp(2);", "c = lp(5);", "c = ap(tab(1, 0), \"x\");", "c = g(1, eh(true));", "c = g(lz(false), lz(true));", "c = inc(10 / 0);", "c = g(1, g(2, 10 / 0));"]
+
+
+def _fixed_twins(self):
+    """hand-written functions aimed at the state a call could inherit from earlier calls (cached runtime contexts picked while arguments are
+    being evaluated, the error record, locals, control state), every history of one or two calls x every target call, twin oracle"""
+    def guarded(c): return "begin %s exception when others then print \"@@X:\" error@1; end;" % c
+    hists = [[a] for a in FIXED_CALLS] + [[a, b] for a in FIXED_CALLS for b in FIXED_CALLS]
+    k, n = self.desc["k"], self.desc["n"]
+    idx = 0
+    for h in hists:
+        for target in FIXED_CALLS:
+            idx += 1
+            if idx % n != k: continue
+            if self.desc["tier"] == "quick" and len(h) == 2 and (idx // n) % 3: continue
+            t_target = 'c = 0; print "@@9999:target"; ' + guarded(target) + ' print "@@R:" c;\n'
+            text = FIXED_FUNCS + "".join(guarded(c) + "\n" for c in h) + t_target
+            ops = ["new A 0", "parse A P %s" % hx(text), "run A P 40000", "dump A", "new B 0", "parse B Q %s" % hx(FIXED_FUNCS + t_target), "run B Q 40000", "dump B"]
+            rr = self.probe.case(ops)
+            self.res["evaluations"] += 1; bump(self.res, "fixed_twin_pairs")
+            if rr.crashed:
+                bump(self.res, "worker_crashes")
+                add_violation(self.res, "C08|crash:%s" % rr.sig, "fixed twin crashed: %s" % rr.sig, {"ops": ops, "program": text, "report": rr.report[-3000:]}); continue
+            if rr.timeout:
+                self.res["inconclusive"] += 1; continue
+            rep = rr.replies
+            if not rep[1].startswith("ok") or not rep[5].startswith("ok"):
+                raise HarnessFailure("C08 fixed twin rejected by the parser: %s / %s" % (rep[1][:200], rep[5][:200]))
+            oa, ia, outa, _ = ld.impl_outcome(rep[2], self.E); ob, ib, outb, _ = ld.impl_outcome(rep[6], self.E)
+            def after(out):
+                m = ld.markers(out)
+                return m[m.index("@@9999:target"):] if "@@9999:target" in m else None
+            ta, tb = after(outa), after(outb)
+            if ta != tb or oa != ob:
+                self.viol("history-dependence|fixed", "`%s` printed %r (%s) after the calls %r but %r (%s) in a fresh context" % (target, ta, oa, h, tb, ob), ops, text); continue
+            da = parse_dump(rep[3]); db = parse_dump(rep[7])
+            live = int(da["kw"]["live"]); nfn = int(da["kw"]["nfn"]); cached = int(da["kw"]["cached"])
+            if live != 1 + nfn + cached:      # counted when context A was dumped (B did not exist yet)
+                self.viol("context-conservation|fixed", "%d live contexts after %r + `%s` (expected 1 root + %d functions + %d cached)" % (live, h, target, nfn, cached), ops, text); continue
+            self.res["nontrivial"].add(case_hash(text))
+
+
+Sh.fixed_twins = _fixed_twins
+
+
 def plan(tier, seed):
     sh = [{"kind": "ladder", "k": 0, "n": 1, "seed": seed, "tier": tier}, {"kind": "depth_histories", "k": 0, "n": 1, "seed": seed, "tier": tier}]
+    for k in range(3): sh.append({"kind": "fixed_twins", "k": k, "n": 3, "seed": seed, "tier": tier})
     for k in range(7): sh.append({"kind": "histories", "k": k, "n": 7, "seed": seed, "tier": tier, "route": "cpp" if k % 3 else "capi"})
     for k in range(6): sh.append({"kind": "twins", "k": k, "n": 6, "seed": seed, "tier": tier})
     return sh
